@@ -3,7 +3,8 @@ import common
 from common import Case
 
 TITLE = 'IMP conversion is the official scale, odd and monotone, for every difference'
-REQUIRED = ['imps_is_scale', 'imps_bounds', 'imps_zero_below_20', 'imps_24_from_4000', 'imps_odd',
+REQUIRED = ['translated_imps_is_scale', 'translated_score_to_imp_is_sum',
+            'imps_is_scale', 'imps_bounds', 'imps_zero_below_20', 'imps_24_from_4000', 'imps_odd',
             'imps_monotone', 'score_to_imp_is_sum']
 RULE = ('every integer in [-4200, 4200] (all thresholds and all off-grid values), +-10^k and +-2^k up to 10^40 '
         'with +-1 neighbours, seeded random integers of up to 140 bits, and pairs for the two-score form; '
@@ -17,6 +18,9 @@ SHARDS = {'quick': 1, 'thorough': 1}
 # every op is a call of a function whose result must not depend on earlier calls: also evaluated in other orders
 PURE_OPS = True
 
+
+# areas of the pure core whose TRANSLATION (Generated/PyCore.lean) is run next to the real code in this check
+TRANSLATED_AREAS = ('imps',)
 
 def cases(ctx):
     rng = ctx.rng
